@@ -312,3 +312,36 @@ def control_result_args(prog, call):
             out[m] = ast.copy_location(ast.Attribute(value=sr, attr=m, ctx=ast.Load()), call)
         return out
     return None
+
+
+def ctor_param_attrs(prog, init, _depth: int = 0):
+    """{constructor parameter -> "self.<attr>"} for the parameters an __init__ stores unchanged on the instance, directly
+    (`self.params = params`) or by handing them to the base constructor (`super().__init__(problem, params)`); a parameter that
+    is reassigned in the constructor is left out.  Inside the constructor `params.rho` then denotes `self.params.rho`."""
+    out = {}
+    if init is None or _depth > 4:
+        return out
+    ps = [p for p in init.params if p != "self"]
+    reassigned = {t.id for n in own_nodes(init.node) if isinstance(n, (ast.Assign, ast.AugAssign, ast.AnnAssign))
+                  for t in (n.targets if isinstance(n, ast.Assign) else [n.target]) if isinstance(t, ast.Name)}
+    for n in own_nodes(init.node):
+        if isinstance(n, ast.Assign) and len(n.targets) == 1 and is_self_attr(n.targets[0]) and isinstance(n.value, ast.Name) and n.value.id in ps:
+            out.setdefault(n.value.id, "self." + n.targets[0].attr)
+        if isinstance(n, ast.Call) and isinstance(n.func, ast.Attribute) and n.func.attr == "__init__" and isinstance(n.func.value, ast.Call) \
+                and dotted(n.func.value.func) == "super" and init.cls is not None:
+            base_init = None
+            for b in prog.mro(init.cls)[1:]:
+                if "__init__" in b.methods:
+                    base_init = b.methods["__init__"]
+                    break
+            if base_init is None:
+                continue
+            b_ = bind_args(base_init, n)
+            if not b_:
+                continue
+            inner = ctor_param_attrs(prog, base_init, _depth + 1)
+            for bp, attr in inner.items():
+                v = b_.get(bp)
+                if isinstance(v, ast.Name) and v.id in ps:
+                    out.setdefault(v.id, attr)
+    return {k: v for k, v in out.items() if k not in reassigned}
